@@ -10,6 +10,7 @@ import (
 	"strings"
 	"sync"
 	"testing"
+	"time"
 
 	"github.com/gethiox/HIDI/internal/pkg/input"
 	"github.com/gethiox/HIDI/internal/pkg/midi/device/config"
@@ -682,6 +683,9 @@ var _ = sort.Strings
 type C10FileCase struct {
 	C     C10Case `json:"c"`
 	Break bool    `json:"break"`
+	// Mtime: 1 - the second version keeps the modification time of the first (cp -p, two saves within one tick);
+	// 2 - it is dated a day before the first (a backup put back)
+	Mtime int `json:"mtime,omitempty"`
 }
 
 var c10FilesRoot string
@@ -743,10 +747,20 @@ func checkC10File(fc C10FileCase) (bool, *Violation) {
 	id := input.InputID{Bus: c.D.ID[0], Vendor: c.D.ID[1], Product: c.D.ID[2], Version: c.D.ID[3]}
 	var v *Violation
 	herr := inDir(c10FilesRoot, func() {
+		var firstTime time.Time
 		for gen, text := range texts {
 			if err := os.WriteFile(path, []byte(text), 0o644); err != nil {
 				v = violation("C10", "harness", "", "write: %v", err)
 				return
+			}
+			if st, err := os.Stat(path); err == nil {
+				if gen == 0 {
+					firstTime = st.ModTime()
+				} else if fc.Mtime == 1 {
+					_ = os.Chtimes(path, firstTime, firstTime)
+				} else if fc.Mtime == 2 {
+					_ = os.Chtimes(path, firstTime.Add(-24*time.Hour), firstTime.Add(-24*time.Hour))
+				}
 			}
 			v = guard("C10", "loader-panic", func() *Violation {
 				direct, derr := config.ParseData([]byte(text))
@@ -781,6 +795,8 @@ func checkC10File(fc C10FileCase) (bool, *Violation) {
 		return false, violation("C10", "harness", "", "chdir: %v", herr)
 	}
 	classifyIf(fc.Break && d2.Channel == 0, "second version invalid")
+	classifyIf(fc.Mtime == 1, "second version keeps the modification time of the first")
+	classifyIf(fc.Mtime == 2, "second version dated a day before the first")
 	return true, v
 }
 
@@ -790,7 +806,7 @@ func genC10File(t *rapid.T) C10FileCase {
 	rs := &recSpelling{t: t}
 	_ = RenderTOML(d, rs.spelling())
 	c.Spell = rs.rec
-	return C10FileCase{C: c, Break: rapid.IntRange(0, 3).Draw(t, "break") == 0}
+	return C10FileCase{C: c, Break: rapid.IntRange(0, 3).Draw(t, "break") == 0, Mtime: rapid.SampledFrom([]int{0, 0, 1, 2}).Draw(t, "mtime")}
 }
 
 func TestC10Files(t *testing.T) { ReplayOrRapid(t, NewRun(t, "C10"), checkC10File, genC10File) }
